@@ -2,7 +2,7 @@
    flags.Multiperiod.Partition.  Input: the syntax-level directives of all loaded files. *)
 From Coq Require Import ZArith List Bool.
 From Knut Require Import Model.Str Model.Dec Model.Date Model.Account Model.Ledger Model.Price
-     Model.Journal Model.Check Model.Pipeline Model.Table Model.Report.
+     Model.Journal Model.Check Model.Pipeline Model.Table Model.Report Model.JPrinter.
 Import ListNotations.
 Open Scope bool_scope.
 Open Scope Z_scope.
@@ -103,3 +103,10 @@ Definition balance_text (cfg : balance_cfg) (tc : text_cfg) (ds : list sdirectiv
 Definition check_cmd (lenient : bool) (ds : list sdirective) : cresult unit :=
   cbind (load ds) (fun b =>
   cbind (run_stage (check_proc lenient) check_init (b_days b)) (fun _ => COk tt)).
+
+(* knut print FILE: check, then journal.Print of a freshly built journal (j.Build() is called
+   twice in print.go; the checker does not modify days) *)
+Definition print_cmd (lenient : bool) (ds : list sdirective) : cresult str :=
+  cbind (load ds) (fun b =>
+  cbind (run_stage (check_proc lenient) check_init (b_days b)) (fun _ =>
+  COk (print_journal (b_days b)))).
